@@ -65,6 +65,7 @@ def strategy(tier: str):
             "old_layout": st.sampled_from(("native", "native", "legacy", "legacy-nulls")),
             "link": st.sampled_from((False, False, True)),
             "old_age": st.sampled_from((0, 0, 899, 901, 3600, 86400 * 400)),
+            "path_form": st.sampled_from(("absolute", "absolute", "bare", "dot", "subdir")),
         }
     )
 
@@ -89,6 +90,8 @@ def enumerate_cases(tier: str):
                     yield {"old": old, "new": new, "same": False, "second": False, "how": how, "old_layout": layout, "link": True}
                     for age in (901, 86400 * 400):
                         yield {"old": old, "new": new, "same": False, "second": False, "how": how, "old_layout": layout, "old_age": age}
+                    for form in ("bare", "dot", "subdir"):
+                        yield {"old": old, "new": new, "same": False, "second": False, "how": how, "old_layout": layout, "path_form": form}
 
 
 # ---------------------------------------------------------------------------
@@ -193,6 +196,21 @@ def _install(ctl: _Control) -> None:
 AGE = [0]  # seconds since the old file was written (set by run_case; applied whenever a directory state is restored)
 SOFT = [False]  # die by an exception raised at the crash point instead of a hard kill (set by the sweep; read in the child)
 HOWS = ("save", "load-save", "stop", "context")
+PATH_FORM = ["absolute"]  # how the application spells the configured path (set by run_case; read in the forked child)
+
+
+def _cfg_path(path: str) -> str:
+    """The configured spelling of the persistence path; the process's working directory is the scratch directory for the relative forms."""
+    form = PATH_FORM[0]
+    if form == "bare":
+        return os.path.basename(path)
+    if form == "dot":
+        return "./" + os.path.basename(path)
+    if form == "subdir":
+        return os.path.join("..", os.path.basename(os.path.dirname(path)), os.path.basename(path))
+    return path
+
+
 HOW = ["save"]  # how the process under test reaches its save (set by run_case around the sweeps; read in the forked child)
 
 
@@ -238,7 +256,9 @@ def _child(scratch: str, path: str, new: dict, crash_at: int, partial: int | Non
     try:
         ctl = _Control(scratch, crash_at, partial, log_fd)
         _install(ctl)
-        gateway = Gateway(env.RecordingTransport(), Config(persistence_file=path))
+        if PATH_FORM[0] != "absolute":
+            os.chdir(scratch)
+        gateway = Gateway(env.RecordingTransport(), Config(persistence_file=_cfg_path(path)))
         import asyncio
 
         soft = SOFT[0]
@@ -415,9 +435,14 @@ def run_case(case: dict) -> Outcome:
     info = {"inside": 0, "ops": 0, "second": 0}
     known = load_known(ID)
     known_failure: Outcome | None = None
+    cwd_before = os.getcwd()
+    PATH_FORM[0] = case.get("path_form") or "absolute"
     try:
+        if PATH_FORM[0] != "absolute":
+            os.chdir(scratch)  # the application runs in its data directory and configures a relative path
+
         async def save_real(reg: dict) -> tuple[bytes, dict]:
-            gateway = Gateway(env.RecordingTransport(), Config(persistence_file=path))
+            gateway = Gateway(env.RecordingTransport(), Config(persistence_file=_cfg_path(path)))
             env.install_registry(gateway.nodes, reg)
             await gateway.persistence.save()
             with open(path, "rb") as fil:
@@ -431,16 +456,19 @@ def run_case(case: dict) -> Outcome:
         if old is not None:
             old_bytes, old_snap = env.run(save_real(old))
             layout = case.get("old_layout", "native")
+            native_state = _dir_state(scratch)
+            legacy_written = False
             if layout != "native" and not any(n["sleeping"] for n in old_snap.values()):
+                legacy_written = True
                 # the previous session was pymysensors (or an old release): same registry, legacy layout on disk
                 old_bytes = json.dumps(c13._legacy(old_snap, layout == "legacy-nulls"), indent=2).encode()
-                with open(path, "wb") as fil:
-                    fil.write(old_bytes)
+                _restore(scratch, {os.path.basename(path): old_bytes})  # (a directory written by that other program: nothing of this library's in it)
                 status, loaded_old = env.run(c13._load(path))
                 if status != "ok":
                     raise RuntimeError(f"legacy form of the old registry does not load: {loaded_old!r}")
                 old_snap = loaded_old
-            start = {os.path.basename(path): old_bytes}
+            # everything the library's own completed save left in the directory (not just the registry file)
+            start = {os.path.basename(path): old_bytes} if legacy_written else native_state
             if case.get("link"):
                 # the configured path is a symbolic link to the real file (a synced or mounted configuration directory)
                 os.unlink(path)
@@ -449,7 +477,7 @@ def run_case(case: dict) -> Outcome:
         async def final_state() -> tuple[bytes, dict]:
             # what a complete, undisturbed run of the same flow leaves behind
             _restore(scratch, start)
-            gateway = Gateway(env.RecordingTransport(), Config(persistence_file=path))
+            gateway = Gateway(env.RecordingTransport(), Config(persistence_file=_cfg_path(path)))
             await _flow(gateway, new, how)
             with open(path, "rb") as fil:
                 return fil.read(), env.snapshot(gateway.nodes)
@@ -498,9 +526,11 @@ def run_case(case: dict) -> Outcome:
                     return failure
     finally:
         AGE[0] = 0
+        PATH_FORM[0] = "absolute"
+        os.chdir(cwd_before)
         shutil.rmtree(scratch, ignore_errors=True)
     if known_failure is not None:
         known_failure.extra_evals = forks_total - 1
         return known_failure
-    classes = (("live-path-is-a-symlink",) if case.get("link") else ()) + (f"how={case.get('how', 'save')}", f"old-layout={case.get('old_layout', 'native')}", f"ops={min(info['ops'], 12)}", "old=none" if old is None else ("old=empty" if not old else "old=nonempty"), "same" if case.get("same") else "different") + (("two-crashes",) if info["second"] else ())
+    classes = (("live-path-is-a-symlink",) if case.get("link") else ()) + ((f"path-form={case['path_form']}",) if case.get("path_form") not in (None, "absolute") else ()) + (f"how={case.get('how', 'save')}", f"old-layout={case.get('old_layout', 'native')}", f"ops={min(info['ops'], 12)}", "old=none" if old is None else ("old=empty" if not old else "old=nonempty"), "same" if case.get("same") else "different") + (("two-crashes",) if info["second"] else ())
     return Outcome(ok=True, nontrivial=info["inside"] > 0, classes=classes, extra_evals=forks_total - 1)
